@@ -161,9 +161,9 @@ def proof_stage(ctx):
         return
     # parse "'X' depends on axioms: [a, b]" / "'X' does not depend on any axioms"
     found = {}
-    for m in re.finditer(r"'([^']+)' depends on axioms: \[([^\]]*)\]", out.replace('\n', ' ')):
+    for m in re.finditer(r"'([^'\s]+'*)' depends on axioms: \[([^\]]*)\]", out.replace('\n', ' ')):
         found[m.group(1)] = [a.strip() for a in m.group(2).split(',') if a.strip()]
-    for m in re.finditer(r"'([^']+)' does not depend on any axioms", out):
+    for m in re.finditer(r"'([^'\s]+'*)' does not depend on any axioms", out):
         found[m.group(1)] = []
     for n in names:
         if n not in found:
